@@ -195,7 +195,7 @@ def fam_named_fields(quick):
             out.append(Case({"family": "nested-presentation", "inner": lbl, "outer": olbl}, [inn, td], check("X") + check("Inner")))
     # rename_all x a struct mixing plain, renamed, flattened, inlined, skipped and optional fields
     for rule in RULES + [None]:
-        for tag in (None, "type"):
+        for tag in (None, "type", "tag_Key"):
             attrs = []
             if rule:
                 attrs.append(f'#[serde(rename_all = "{rule}")]')
@@ -390,6 +390,13 @@ def fam_enums(quick):
                            TypeDef("E", "enum", variants=vs, attrs=list(rattr) + [f'#[serde(rename_all = "{rule}")]'])))
             out.append(one({"family": "enum-rename-all-fields", "repr": rp, "rule": rule},
                            TypeDef("E", "enum", variants=vs, attrs=list(rattr) + [f'#[serde(rename_all_fields = "{rule}")]'])))
+            # tag / content keys that every rule would change if it were (wrongly) applied to them
+            if rp in ("internal", "adjacent"):
+                rattr2 = ['#[serde(tag = "tag_Key")]'] if rp == "internal" else ['#[serde(tag = "tag_Key", content = "content_Key")]']
+                out.append(one({"family": "enum-rename-all", "repr": rp, "rule": rule, "keys": "multi-word"},
+                               TypeDef("E", "enum", variants=vs, attrs=list(rattr2) + [f'#[serde(rename_all = "{rule}")]'])))
+                out.append(one({"family": "enum-rename-all-fields", "repr": rp, "rule": rule, "keys": "multi-word"},
+                               TypeDef("E", "enum", variants=vs, attrs=list(rattr2) + [f'#[serde(rename_all_fields = "{rule}")]'])))
         both = [Variant("UnitVar", "unit"), Variant("StructVar", "named", [Field("i32", "field_one"), Field("u64", "type_over_ride", ['#[ts(type = "bigint")]'])]),
                 Variant("OwnRule", "named", [Field("i32", "field_two"), Field("u64", "type_over_ride", ['#[ts(type = "bigint")]'])], ['#[serde(rename_all = "SCREAMING_SNAKE_CASE")]'])]
         out.append(one({"family": "enum-rename-all-both", "repr": rp},
